@@ -107,6 +107,13 @@ CHECKS = {
             'generic, other class, identical object): ==, !=, the four ordering methods (NotImplemented included), hash / '
             'unhashable per the stdlib table, equal => equal hash, frozen assignment, deletion, set-record on assignment, '
             'copy / deepcopy / __replace__ (value, set-record, new object, hook runs, re-validation), repr fields.', 'section 7 C16'),
+    'C17': ('explicit TLA+ class rules over hierarchy programs (PaneProgram.tla: MRO merge with in-place override, inherited '
+            'defaults, keyword-only partition, type-parameter bookkeeping, substitution, option inheritance); TLC enumerates all '
+            'programs of the production rules (MC_Program.tla) and checks laws; every program is defined for real, its definition '
+            'outcome, signature, repr order, frozenness, parameters, subscriptions and conversions are validated by the TLC trace spec',
+            'All programs of depth <= 2 (quick, ~11k) / 3 (thorough, ~100k): generic bases bound, forwarded, renamed, swapped, '
+            're-declared, bound to unions and under Annotated; overriding with and without defaults; markers, per-field and '
+            'class-level keyword-only; option sets per level.', 'section 7 C17'),
 }
 
 NOT_YET = 'check not built yet (work in progress; see DESIGN.md section 12 build order)'
